@@ -425,3 +425,14 @@ Proof.
     destruct (os_eqb_windows o && _ && _); assumption.
 Qed.
 End Crash.
+
+(* ---------------------------------------------------------------- what the index depends on *)
+Lemma bytes_depend_on_streams rc e m1 m2 : wf_model e m1 = true -> wf_model e m2 = true ->
+  m_time m1 = m_time m2 -> m_sysinfo m1 = m_sysinfo m2 -> m_threads m1 = m_threads m2 -> m_tnames m1 = m_tnames m2 ->
+  m_exception m1 = m_exception m2 -> m_breakpad m1 = m_breakpad m2 -> m_misc m1 = m_misc m2 -> m_lx_status m1 = m_lx_status m2 ->
+  m_modules m1 = m_modules m2 -> m_unloaded m1 = m_unloaded m2 ->
+  dump_of_bytes rc (encode_dump e m1) = dump_of_bytes rc (encode_dump e m2).
+Proof.
+  intros W1 W2 H1 H2 H3 H4 H5 H6 H7 H8 H9 H10. rewrite (bytes_roundtrip rc e m1 W1), (bytes_roundtrip rc e m2 W2).
+  unfold dump_of_model. rewrite H1, H2, H3, H4, H5, H6, H7, H8, H9, H10. reflexivity.
+Qed.
